@@ -1,9 +1,11 @@
 """C04 — cancellation reaches every descendant context and nothing else; one winner (DESIGN.md §3 C04, §4 F2).
 
-E-GEN : two facts about the protocol are re-extracted from the source on every run and written to Generated/C04.lean:
+E-GEN : three facts about the protocol are re-extracted from the source on every run and written to Generated/C04.lean:
           propagatorHoldsPropagationMutex  (the lock taken by bind_to_impl's fall-back is held by the propagator for the walk)
           bindCopyNeverClears              (bind_to_impl's copies of the parent's flag can only store "cancelled")
-        The Lean model `CtxTree` is parameterised by them; the main theorem is stated over the generated values.
+          resetStores / resetSeqCode       (exactly which members of its context task_group_context_impl::reset stores to, in
+                                            program order; the model's reset step performs the modelled ones in that order)
+        The Lean model `CtxTree` is parameterised by them; the main theorems are stated over the generated values.
 E-SHIM: white-box op programs (bind / cancel / destroy / reset over context trees, 2-4 external threads, each with its
         own context list) run on the WHOLE instrumented runtime under seeded random schedules; the atomic-access trace
         restricted to the context / epoch / mutex variables is replayed access by access on `CtxTree` (instantiated with
@@ -142,7 +144,37 @@ def extract_facts():
         else:
             never_clears = False
             problems.append("unrecognised store to ctx.my_cancellation_requested in bind_to_impl")
+    # 4. which members of its own context does reset() store to, in program order ?
+    rs = function_body(tgc, r"void\s+task_group_context_impl::reset\s*\(")
+    reset_stores, reset_codes = [], []
+    MODELLED = {"my_cancellation_requested": 0, "my_may_have_children": 1}
+    UNMODELLED_OK = {"my_exception"}
+    if rs is None:
+        problems.append("task_group_context_impl::reset not found")
+    else:
+        pat = re.compile(r"(?P<obj>[\w.>\-]*?)\b(?P<f>my_\w+)\s*(?:\.\s*(?P<m>store|exchange|fetch_\w+|compare_exchange_\w+)\s*\(\s*(?P<a>[^,)]*)|(?P<op>=|\+=|-=|\|=|&=|\+\+|--)(?!=)\s*(?P<v>[^;]*);)")
+        for m in pat.finditer(rs):
+            obj, f = m.group("obj"), m.group("f")
+            if f in MODELLED and rs[:m.start()].count("{") != rs[:m.start()].count("}"):
+                problems.append("reset stores to %s inside a nested block (conditionally): the model's reset stores unconditionally" % f)
+            val = (m.group("a") if m.group("m") else m.group("v")) or ""
+            val = val.strip()
+            if obj != "ctx.":
+                problems.append("reset writes %s%s: not a member of its own context" % (obj, f))
+                continue
+            reset_stores.append(f)
+            if f in MODELLED:
+                if (m.group("m") in (None, "store")) and m.group("op") in (None, "=") and re.fullmatch(r"0|false|(std::)?uint32_t\s*[({]\s*0\s*[)}]|(d1::)?task_group_context::\w*no_children\w*", val or "x"):
+                    reset_codes.append(MODELLED[f])
+                else:
+                    problems.append("reset writes %s with an unrecognised value `%s`" % (f, val))
+            elif f not in UNMODELLED_OK:
+                problems.append("reset writes %s, which the model does not expect reset to touch" % f)
     facts = {
+        "resetStores": reset_stores,
+        "resetSeqCode": reset_codes,
+        "resetClearsCancelFlag": 0 in reset_codes,
+        "resetClearsMayHaveChildren": 1 in reset_codes,
         "propagatorLocks": sorted(set(plocks)),
         "fallbackLock": fallback or "?",
         "propagatorHoldsPropagationMutex": bool(fallback) and fallback in plocks,
@@ -159,16 +191,33 @@ def gen(ck):
     body = ("/-- the mutex bind_to_impl's fall-back locks -/\ndef fallbackLock : String := %s\n"
             "/-- mutexes the propagator holds from the epoch increment to the end of the walk -/\ndef propagatorLocks : List String := [%s]\n"
             "def propagatorHoldsPropagationMutex : Bool := %s\n"
-            "def bindCopyNeverClears : Bool := %s\n") % (
+            "def bindCopyNeverClears : Bool := %s\n"
+            "/-- the members of its own context that task_group_context_impl::reset stores to, in program order -/\n"
+            "def resetStores : List String := [%s]\n"
+            "/-- the stores of reset to the modelled fields, in program order (0 = my_cancellation_requested := 0, 1 = my_may_have_children := 0) -/\n"
+            "def resetSeqCode : List Nat := [%s]\n"
+            "def resetClearsCancelFlag : Bool := resetSeqCode.contains 0\n"
+            "def resetClearsMayHaveChildren : Bool := resetSeqCode.contains 1\n") % (
         json.dumps(facts["fallbackLock"]), ", ".join(json.dumps(x) for x in facts["propagatorLocks"]),
-        lb(facts["propagatorHoldsPropagationMutex"]), lb(facts["bindCopyNeverClears"]))
+        lb(facts["propagatorHoldsPropagationMutex"]), lb(facts["bindCopyNeverClears"]),
+        ", ".join(json.dumps(x) for x in facts["resetStores"]), ", ".join(str(c) for c in facts["resetSeqCode"]))
     gen_write("C04", body)
     ck.oblige("gen:source shapes recognised (propagator locks, binder fall-back lock, binder copy sites)", "generated", not problems, "; ".join(problems))
     o1 = ck.oblige("gen:propagatorHoldsPropagationMutex — hypothesis of cancel_reaches_all_bound", "generated", facts["propagatorHoldsPropagationMutex"],
                    "binder's fall-back locks %s; the propagator holds %s during the walk" % (facts["fallbackLock"], facts["propagatorLocks"]))
     o2 = ck.oblige("gen:bindCopyNeverClears — hypothesis of cancel_reaches_all_bound and cancel_sticky", "generated", facts["bindCopyNeverClears"],
                    "bind_to_impl copies the parent's flag with an unconditional load+store pair (%d sites): it can write 0 over a 1" % facts["bindCopySites"])
+    ck.oblige("gen:resetKeepsMayHaveChildren — hypothesis of mhc_monotone_while_children and cancel_reaches_all_bound_with_reset", "generated",
+              not facts["resetClearsMayHaveChildren"],
+              "task_group_context_impl::reset stores to %s: it clears my_may_have_children although children may stay bound across the reset, so the "
+              "next cancel_group_execution skips the propagation (Props.reach_fails_when_reset_clears_hint)" % facts["resetStores"])
+    ck.oblige("gen:resetClearsCancelFlag — reset stores 0 to my_cancellation_requested (task_group reuse; 'cancelled until it is reset')", "generated",
+              facts["resetClearsCancelFlag"], "task_group_context_impl::reset stores to %s" % facts["resetStores"])
     return facts
+
+
+def reset_word(facts):
+    return "".join("cm"[c] for c in facts["resetSeqCode"]) or "-"
 
 
 # --------------------------------------------------------------------------------------------------
@@ -287,6 +336,352 @@ def copy_scenarios():
     ]
 
 
+# --------------------------------------------------------------------------------------------------
+# scenarios with resets of contexts that have bound children, and the sequential specification they are judged by
+# --------------------------------------------------------------------------------------------------
+
+def scenario_tree(sc):
+    parent = {}
+    for o in sc["ops"]:
+        if o["kind"] == "bind" and o["x"] not in parent:
+            parent[o["x"]] = o["p"]
+    return parent
+
+
+def ancestors_of(parent, x):
+    out, a = [], parent.get(x)
+    while a is not None and a not in out:
+        out.append(a)
+        a = parent.get(a)
+    return out
+
+
+def order_closure(sc):
+    """before[i] = ids of the ops that are guaranteed to have completed when op i starts (deps + program order, transitively)"""
+    before, last = {}, {}
+    for o in sorted(sc["ops"], key=lambda o: o["id"]):
+        preds = set(o["deps"])
+        if o["th"] in last:
+            preds.add(last[o["th"]])
+        acc = set(preds)
+        for q in preds:
+            acc |= before[q]
+        before[o["id"]] = acc
+        last[o["th"]] = o["id"]
+    return before
+
+
+def orphaning_exit(sc):
+    """does some thread exit while a context it may have bound is (possibly) still alive ?  Then the sequential specification
+    does not apply: the code is known to lose such contexts (finding orphaned-list-not-reached)."""
+    before = order_closure(sc)
+    for e in sc["ops"]:
+        if e["kind"] != "exit":
+            continue
+        for b in sc["ops"]:
+            if b["kind"] == "bind" and b["th"] == e["th"] and b["p"] is not None:
+                dead = any(d["kind"] == "destroy" and d["x"] == b["x"] and d["id"] in before[e["id"]] for d in sc["ops"])
+                if not dead:
+                    return True
+    return False
+
+
+def reset_sequencing(sc):
+    """(disciplined, fully_sequenced): disciplined = every reset(x) is ordered w.r.t. every other op on x or on a context bound
+    beneath x (the documented precondition of reset); fully sequenced = additionally ordered w.r.t. every cancel of a proper
+    ancestor of x, so that the final flags are a function of the program alone."""
+    parent = scenario_tree(sc)
+    before = order_closure(sc)
+    disciplined = full = True
+    for r in sc["ops"]:
+        if r["kind"] != "reset":
+            continue
+        x = r["x"]
+        anc = set(ancestors_of(parent, x))
+        for o in sc["ops"]:
+            if o["id"] == r["id"] or o["kind"] in ("register", "exit"):
+                continue
+            ordered = o["id"] in before[r["id"]] or r["id"] in before[o["id"]]
+            if ordered:
+                continue
+            in_sub = lambda y: y is not None and (y == x or x in ancestors_of(parent, y))
+            if in_sub(o["x"]) or (o["kind"] == "bind" and in_sub(o["p"])):
+                disciplined = full = False
+            elif o["kind"] == "cancel" and o["x"] in anc:
+                full = False
+    return disciplined, full
+
+
+def spec_table(sc):
+    """final (state, cancelled) of every context under the sequential specification of the property, executing the ops in id
+    order (a linear extension of the scenario's partial order).  For fully sequenced scenarios every linear extension gives the
+    same flags — that IS the property: a bind racing a cancel ends cancelled either way."""
+    parent = scenario_tree(sc)
+    state, can = {}, {}
+    for o in sorted(sc["ops"], key=lambda o: o["id"]):
+        if o["kind"] in ("register", "exit"):
+            continue
+        x = o["x"]
+        state.setdefault(x, 0)
+        can.setdefault(x, 0)
+        if state[x] == 4:
+            continue
+        if o["kind"] == "bind":
+            if state[x] == 0:
+                if o["p"] is None:
+                    state[x] = 2
+                else:
+                    state[x] = 3
+                    if can.get(o["p"], 0):
+                        can[x] = 1
+        elif o["kind"] == "cancel":
+            if not can[x]:
+                can[x] = 1
+                for y in list(state):
+                    if state[y] == 3 and x in ancestors_of(parent, y):
+                        # only contexts whose chain up to x is bound (a parent is always bound before its children)
+                        can[y] = 1
+        elif o["kind"] == "reset":
+            can[x] = 0
+        elif o["kind"] == "destroy":
+            state[x] = 4
+    return state, can
+
+
+def apply_spec(sc, run):
+    """Sequential-specification monitor (implementation side, independent of the Lean model): for a fully sequenced scenario
+    the final table of the real runtime must be the table of the sequential specification."""
+    if "spec" not in sc:
+        d, f = reset_sequencing(sc)
+        f = f and not orphaning_exit(sc)
+        sc["spec"] = {"disciplined": d, "full": f}
+        if f:
+            st, can = spec_table(sc)
+            sc["spec"]["state"], sc["spec"]["can"] = {str(k): v for k, v in st.items()}, {str(k): v for k, v in can.items()}
+    if not sc["spec"]["full"] or run["mon"] != "ok":
+        return
+    for x, row in sorted(run["ctx"].items()):
+        est, ecan = sc["spec"]["state"].get(str(x)), sc["spec"]["can"].get(str(x))
+        if est is None or est == 4 or row[0] == "4":
+            continue
+        if int(row[1]) != ecan:
+            if ecan:
+                run["mon"] = ("VIOLATION spec-reach: context %d must be cancelled at quiescence (the program is fully sequenced with respect to its "
+                              "resets; sequential specification: cancelled) and is not" % x)
+            else:
+                run["mon"] = ("VIOLATION spec-overreach: context %d is cancelled at quiescence although the sequential specification of the fully "
+                              "sequenced program leaves it uncancelled (last operation on it was a reset, or nothing above it was cancelled since)" % x)
+            return
+
+
+def reset_rounds_scenario(rng, mode=None):
+    """Context trees whose inner nodes are reset between rounds of cancellation and cancelled again.
+    modes: leaf-first (the whole cancelled subtree is reset, children before parents), root-only (children keep their flags),
+    mid-only (one intermediate context), subset (random subset, children before parents), race (resets of a child subtree
+    run concurrently with a cancel of a proper ancestor: disciplined, not fully sequenced)."""
+    mode = mode or rng.choice(["leaf-first", "leaf-first", "root-only", "root-only", "mid-only", "subset", "race"])
+    T = rng.choice([2, 3, 3, 4])
+    order = list(range(T))
+    rng.shuffle(order)
+    raw, bind_op, parent, depth, children = [], {}, {}, {}, {}
+
+    def add(t, kind, x, p, deps):
+        raw.append((t, kind, x, p, sorted(set(deps))))
+        return len(raw) - 1
+
+    def new_ctx(x, p, deps):
+        t = rng.randrange(T)
+        i = add(t, "bind", x, p, list(deps) + ([bind_op[p]] if p is not None else []))
+        bind_op[x], parent[x], depth[x] = i, p, (depth[p] + 1 if p is not None else 0)
+        children.setdefault(x, [])
+        if p is not None:
+            children[p].append(x)
+        return i
+
+    def subtree(x):
+        out = [x]
+        for c in children[x]:
+            out += subtree(c)
+        return out
+
+    def postorder(x):
+        out = []
+        for c in children[x]:
+            out += postorder(c)
+        return out + [x]
+    # the tree: root 1 (isolated), a chain/bush of depth 1-3 beneath it
+    nxt = 1
+    new_ctx(nxt, None, [])
+    nxt += 1
+    want_depth = rng.choice([1, 2, 2, 3, 3])
+    for d in range(1, want_depth + 1):
+        cands = [c for c in parent if depth[c] == d - 1]
+        for _ in range(rng.choice([1, 1, 2])):
+            new_ctx(nxt, rng.choice(cands), [])
+            nxt += 1
+    rounds = rng.choice([2, 2, 3])
+    barrier = []
+    for rd in range(rounds):
+        inner = [c for c in parent if children[c]]
+        src = rng.choice(inner if inner and rng.random() < 0.8 else list(parent))
+        # a few fresh children bound while the cancel runs
+        ops_round = []
+        for _ in range(rng.choice([0, 1, 1, 2])):
+            if nxt >= 40:
+                break
+            cands = [c for c in parent if depth[c] < 3]
+            ops_round.append(new_ctx(nxt, rng.choice(cands), barrier))
+            nxt += 1
+        ncan = rng.choice([1, 1, 2])
+        for k in range(ncan):
+            tgt = src if k == 0 else rng.choice(list(parent))
+            ops_round.append(add(rng.randrange(T), "cancel", tgt, None, barrier + [bind_op[tgt]]))
+        all_so_far = list(range(len(raw)))
+        if rd == rounds - 1:
+            break
+        # resets between the rounds
+        if mode in ("leaf-first",):
+            targets = postorder(src)
+        elif mode == "root-only":
+            targets = [src]
+        elif mode == "mid-only":
+            mids = [c for c in subtree(src) if c != src and children[c]]
+            targets = [rng.choice(mids)] if mids else [src]
+        elif mode == "subset":
+            targets = [c for c in postorder(src) if rng.random() < 0.6] or [src]
+        else:  # race: reset a child subtree while an ancestor is cancelled (again)
+            kids = [c for c in subtree(src) if c != src]
+            sub = rng.choice(kids) if kids else src
+            targets = postorder(sub)
+        reset_id = {}
+        for x in targets:
+            below = [reset_id[y] for y in subtree(x) if y in reset_id]
+            reset_id[x] = add(rng.randrange(T), "reset", x, None, all_so_far + below)
+        if mode == "race" and targets and targets[-1] != src:
+            # a cancel of a proper ancestor of the reset subtree, ordered only after the previous round
+            top = targets[-1]
+            anc = ancestors_of(parent, top)
+            add(rng.randrange(T), "cancel", rng.choice(anc), None, all_so_far)
+        barrier = list(range(len(raw)))
+    return {"threads": T, "order": order, "ops": mk_ops(raw), "family": "reset-" + mode}
+
+
+def registry_scenario(rng, orphaning=None):
+    """Threads that create their thread_data during the run (`register`: a new context list with epoch 0 whatever the global
+    epoch is) and threads that exit (`exit`: unregister + orphan the list) while cancels and binds are in flight.
+    orphaning = False: an exiting thread has bound nothing beneath a parent, or has destroyed what it bound (the sequential
+    specification applies); True: it leaves live contexts behind in its orphaned list (known finding)."""
+    if orphaning is None:
+        orphaning = rng.random() < 0.35
+    T = rng.choice([3, 3, 4])
+    order = list(range(T))
+    rng.shuffle(order)
+    late = [t for t in range(1, T) if rng.random() < 0.5]
+    leaving = [t for t in range(1, T) if rng.random() < 0.6] or [rng.randrange(1, T)]
+    raw, bind_op, parent, depth, children, binder = [], {}, {}, {}, {}, {}
+    started = set(t for t in range(T) if t not in late)
+
+    def add(t, kind, x, p, deps):
+        if t not in started:
+            # the thread's first op: create its thread_data now (possibly after some earlier ops, so that the global epoch has moved)
+            pre = [i for i in range(len(raw)) if rng.random() < 0.5]
+            raw.append((t, "register", 0, None, pre[-2:]))
+            started.add(t)
+        raw.append((t, kind, x, p, sorted(set(deps))))
+        return len(raw) - 1
+    alive_threads = lambda: [t for t in range(T) if t not in gone]
+    gone, dead = set(), set()
+    nxt = 1
+    # a root and a first level, bound by threads that stay or leave
+    r0 = add(0, "bind", nxt, None, [])
+    bind_op[nxt], parent[nxt], depth[nxt], children[nxt], binder[nxt] = r0, None, 0, [], 0
+    nxt += 1
+    budget = rng.randrange(8, 16)
+    last_use = {}
+    while budget > 0:
+        budget -= 1
+        t = rng.choice(alive_threads())
+        r = rng.random()
+        if r < 0.5 and nxt < 30:
+            cands = [c for c in parent if depth[c] < 3 and c not in dead]
+            p = rng.choice(cands)
+            i = add(t, "bind", nxt, p, [bind_op[p]])
+            bind_op[nxt], parent[nxt], depth[nxt], children[nxt], binder[nxt] = i, p, depth[p] + 1, [], t
+            children[p].append(nxt)
+            last_use.setdefault(nxt, []).append(i)
+            last_use.setdefault(p, []).append(i)
+            nxt += 1
+        elif r < 0.8:
+            x = rng.choice([c for c in parent if c not in dead])
+            i = add(t, "cancel", x, None, [bind_op[x]] if rng.random() < 0.7 else [])
+            last_use.setdefault(x, []).append(i)
+        elif r < 0.9 and len(gone) < len(leaving):
+            cand = [u for u in leaving if u not in gone and u in started]
+            if cand:
+                u = rng.choice(cand)
+                deps = []
+                if not orphaning:
+                    # destroy (leaf first) everything u bound and everything bound beneath it, before u leaves
+                    mine = [c for c in parent if binder[c] == u and c not in dead and parent[c] is not None]
+
+                    def post(c):
+                        out = []
+                        for ch in children[c]:
+                            if ch not in dead:
+                                out += post(ch)
+                        return out + [c]
+                    doomed = []
+                    for c in mine:
+                        for d in post(c):
+                            if d not in doomed:
+                                doomed.append(d)
+                    for d in doomed:
+                        uses = list(last_use.get(d, []))
+                        for ch in children[d]:
+                            uses += last_use.get(ch, [])
+                        i = add(u, "destroy", d, None, uses + deps)
+                        last_use.setdefault(d, []).append(i)
+                        if parent[d] is not None:
+                            last_use.setdefault(parent[d], []).append(i)
+                        dead.add(d)
+                        deps.append(i)
+                add(u, "exit", 0, None, deps)
+                gone.add(u)
+    return {"threads": T, "order": order, "ops": mk_ops(raw), "family": "registry-" + ("orphaning" if orphaning else "clean")}
+
+
+def registry_corpus():
+    return [
+        # the finding, minimal: thread 1 binds 2 beneath 1, exits; thread 0 cancels 1
+        {"threads": 2, "order": [0, 1], "ops": mk_ops([(0, "bind", 1, None, []), (1, "bind", 2, 1, [0]), (1, "exit", 0, None, [1]), (0, "cancel", 1, None, [2])])},
+        # a thread registers after a propagation (its list: epoch 0, global epoch 1) and binds beneath the cancelled tree, racing a second cancel
+        {"threads": 3, "order": [0, 2, 1], "ops": mk_ops([(0, "bind", 1, None, []), (0, "bind", 2, 1, [0]), (2, "cancel", 2, None, [1]), (1, "register", 0, None, [2]),
+                                                          (1, "bind", 3, 2, [3]), (2, "cancel", 1, None, [2]), (1, "bind", 4, 3, [4])])},
+        # exit racing a propagation: thread 1 leaves (nothing bound by it) while thread 0 cancels
+        {"threads": 3, "order": [1, 0, 2], "ops": mk_ops([(0, "bind", 1, None, []), (2, "bind", 2, 1, [0]), (1, "exit", 0, None, []), (0, "cancel", 1, None, [1]), (2, "bind", 3, 2, [1])])},
+        # a late thread registers while a propagation is between two lists
+        {"threads": 3, "order": [2, 0, 1], "ops": mk_ops([(0, "bind", 1, None, []), (2, "bind", 2, 1, [0]), (1, "register", 0, None, [1]), (0, "cancel", 1, None, [1]), (1, "bind", 3, 2, [2])])},
+    ]
+
+
+def reuse_scenarios():
+    """the motivating shapes, spelled out: a child stays bound across the reset of its parent, the parent is cancelled again"""
+    return [
+        # bind P, bind child under P (another thread's list), reset P, cancel P
+        {"threads": 2, "order": [0, 1], "ops": mk_ops([(0, "bind", 1, None, []), (1, "bind", 2, 1, [0]), (0, "reset", 1, None, [1]), (0, "cancel", 1, None, [2])])},
+        # full round trip: cancel P; reset child, reset P; cancel P again (the canceller is a third thread)
+        {"threads": 3, "order": [2, 0, 1], "ops": mk_ops([(0, "bind", 1, None, []), (1, "bind", 2, 1, [0]), (2, "cancel", 1, None, [1]),
+                                                          (1, "reset", 2, None, [2]), (0, "reset", 1, None, [3]), (2, "cancel", 1, None, [4])])},
+        # depth 3, only the root of the cancelled subtree is reset, a fresh grandchild is bound while the second cancel runs
+        {"threads": 3, "order": [1, 2, 0], "ops": mk_ops([(0, "bind", 1, None, []), (0, "bind", 2, 1, [0]), (1, "bind", 3, 2, [1]), (2, "bind", 4, 3, [2]),
+                                                          (2, "cancel", 2, None, [3]), (0, "reset", 2, None, [4]), (1, "cancel", 2, None, [5]), (2, "bind", 5, 3, [5])])},
+        # task_group::wait style: the inner context (3) is reset by its owner while the outer one (2) is still cancelled, then the outer is
+        # reset and both are used again; second round cancels the root
+        {"threads": 2, "order": [1, 0], "ops": mk_ops([(0, "bind", 1, None, []), (0, "bind", 2, 1, [0]), (1, "bind", 3, 2, [1]), (1, "cancel", 2, None, [2]),
+                                                       (1, "reset", 3, None, [3]), (0, "reset", 2, None, [4]), (0, "cancel", 1, None, [5]), (1, "bind", 4, 3, [5])])},
+    ]
+
+
 CORPUS = [
     # two cancels of the same context + a cancel one level below, children bound concurrently
     {"threads": 4, "order": [3, 1, 0, 2], "ops": mk_ops([
@@ -315,14 +710,18 @@ def build_nat():
                      flags=["-O1", "-g", "-fno-access-control", "-I" + REPO + "/src"] + common.SHIM_FLAGS, libs=objs + ["-ldl"])
 
 
-NAT_PLANS = ["-", "L1:1:b", "L0:1:e,L1:4:b", "X:2", "X:4,L2:5:b", "X:6,L1:2:e", "L1:0:b,L1:2:e,X:5", "L0:0:b,X:3"]
+NAT_PLANS = ["-", "L1:1:b", "L0:1:e,L1:4:b", "X:2", "X:4,L2:5:b", "X:6,L1:2:e", "L1:0:b,L1:2:e,X:5", "L0:0:b,X:3",
+             # task_group reuse: persistent inner groups bound in round 0, every wait() resets, an outer group cancelled in the last round
+             "TG:1:0:2", "TG:2:0:2", "TG:2:1:3", "TG:3:0:2", "TG:3:2:2", "TG:1:0:3",
+             # contexts bound by an external thread that stays (EX:0) / exits before its contexts are used again and cancelled (EX:1)
+             "EX:0", "EX:1"]
 
 
 def natural_family(ck, seed, quick):
     """nested parallel_for loops with explicit contexts on the whole runtime (workers steal and bind), monitors only"""
     exe = build_nat()
     n = 40 if quick else 400
-    bad, total = [], 0
+    bad, total, orphan_bad = [], 0, []
     for i, plan in enumerate(NAT_PLANS):
         P, W = (3, 3) if i % 2 == 0 else (4, 2)
         rc, out, err = sh([exe, str(P), str(W), plan, "rand", str(seed * 53 + i), str(n)], timeout=1200)
@@ -330,7 +729,9 @@ def natural_family(ck, seed, quick):
         total += len(runs)
         for r in runs:
             ck.count(1, ("natural", plan, r["mon"].split(":")[0]))
-            if r["mon"] != "ok":
+            if r["mon"].startswith("VIOLATION reach-orphan"):
+                orphan_bad.append((P, W, plan, r))
+            elif r["mon"] != "ok":
                 bad.append((P, W, plan, r))
         if rc not in (0, 1, 3) or not runs:
             bad.append((P, W, plan, {"mon": "harness failed rc=%d %s" % (rc, (out + err)[-200:]), "sched": []}))
@@ -367,12 +768,32 @@ def natural_family(ck, seed, quick):
             P, W, plan, r = bad[0]
             chosen = (P, W, plan, dict(r, mon=r["mon"] + " [schedule did not reproduce in a fresh process: found in a later run of a batch]"))
     ck.extra.setdefault("schedules", {})["natural_runs"] = total
-    ck.oblige("monitor:natural usage (nested parallel_for with explicit contexts, workers, external canceller): reach / overreach / winner / no hang",
+    ck.oblige("monitor:natural usage (nested parallel_for with explicit contexts; persistent task_groups reused across rounds with wait()=reset; "
+              "workers, external canceller): reach / overreach / winner / reset / no hang",
               "correspondence", not bad, "" if not bad else "%s | P=%d W=%d plan=%s" % (chosen[3]["mon"], chosen[0], chosen[1], chosen[2]))
+    # the known limitation: contexts in the orphaned list of an exited thread (reproduced in a fresh process)
+    ochosen = None
+    for (P, W, plan, r) in sorted(orphan_bad, key=lambda b: len(b[3]["sched"]))[:4]:
+        open(f, "w").write(" ".join(map(str, r["sched"])))
+        rc, out, err = sh([exe, str(P), str(W), plan, "replay", f], timeout=300)
+        rr = parse_runs(out)
+        if rr and rr[0]["mon"].startswith("VIOLATION reach-orphan"):
+            ochosen = (P, W, plan, dict(rr[0], sched=r["sched"]))
+            break
+    if orphan_bad and ochosen is None:
+        ochosen = orphan_bad[0]
+    ck.oblige("monitor:natural usage — a context bound by an external thread that has exited is still reached when its ancestor is cancelled "
+              "(Props.reach_fails_for_orphaned_list: the code as it is does not reach it)", "correspondence", not orphan_bad,
+              "" if not orphan_bad else "%s | P=%d W=%d plan=%s" % (ochosen[3]["mon"], ochosen[0], ochosen[1], ochosen[2]), cex_keys=[KEY_ORPHAN])
+    if ochosen:
+        P, W, plan, r = ochosen
+        ck.counterexample(KEY_ORPHAN, "%s | natural program (parallel_for with explicit contexts, public API) P=%d W=%d plan %s | schedule of %d steps" % (r["mon"], P, W, plan, len(r["sched"])),
+                          {"engine": "E-SHIM (whole instrumented runtime, natural usage)", "harness": "nat", "P": P, "W": W, "plan": plan,
+                           "schedule": r["sched"], "monitor": r["mon"]})
     if chosen:
         P, W, plan, r = chosen
         kind = r["mon"].split(":")[0].replace("VIOLATION ", "").split(" ")[0].lower()
-        ck.counterexample("natural-" + kind, "%s | nested parallel_for P=%d W=%d cancel plan %s | schedule of %d steps" % (r["mon"], P, W, plan, len(r["sched"])),
+        ck.counterexample("natural-" + kind, "%s | natural program P=%d W=%d plan %s | schedule of %d steps" % (r["mon"], P, W, plan, len(r["sched"])),
                           {"engine": "E-SHIM (whole instrumented runtime, natural usage)", "harness": "nat", "P": P, "W": W, "plan": plan,
                            "schedule": r["sched"], "monitor": r["mon"]})
 
@@ -384,17 +805,25 @@ def parse_runs(out):
         if not w:
             continue
         if w[0] == "run":
-            cur = {"reg": [], "ev": [], "notes": [], "ctx": {}, "mon": "", "sched": [], "steps": 0}
+            cur = {"reg": [], "ev": [], "evop": [], "notes": [], "ctx": {}, "mon": "", "sched": [], "steps": 0}
+            inop = {}
         elif cur is None:
             continue
         elif w[0] == "reg":
             cur["reg"] = [int(x) for x in w[1:]]
         elif w[0] == "e":
             cur["ev"].append((int(w[1]), w[2], w[3], int(w[4]), int(w[5]), int(w[6])))
+            cur["evop"].append(inop.get(int(w[1])))          # id of the op the thread is executing
         elif w[0] == "n":
             cur["notes"].append((int(w[1]), w[2], int(w[3]), int(w[4])))
+            if w[2] == "opb":
+                inop[int(w[1])] = int(w[3])
+            elif w[2] == "ope":
+                inop.pop(int(w[1]), None)
         elif w[0] == "ctx":
             cur["ctx"][int(w[1])] = w[2:]
+        elif w[0] == "thr":
+            cur.setdefault("thr", {})[int(w[1])] = (int(w[2]), int(w[3]))
         elif w[0] == "steps":
             cur["steps"] = int(w[1])
         elif w[0] == "mon":
@@ -434,14 +863,20 @@ def canon_event(e):
     return "%s %s %d %d" % (kind, var, a, b)
 
 
+def op_text(o):
+    if o["kind"] in ("register", "exit"):
+        return o["kind"]
+    return "%s %d%s" % (o["kind"], o["x"], (" " + ("-" if o["p"] is None else str(o["p"]))) if o["kind"] == "bind" else "")
+
+
 def model_input(sc, run, facts):
     """driver lines that replay one observed run on CtxTree, and what is needed to judge the answer"""
     T = sc["threads"]
-    lines = ["reset", "cfg %d %d" % (facts["propagatorHoldsPropagationMutex"], facts["bindCopyNeverClears"]),
+    lines = ["reset", "cfg %d %d %s" % (facts["propagatorHoldsPropagationMutex"], facts["bindCopyNeverClears"], reset_word(facts)),
              "reg " + " ".join(map(str, run["reg"]))]
     for t in range(T):
         ops = [o for o in sc["ops"] if o["th"] == t]
-        lines.append("prog %d %s" % (t, " ; ".join("%s %d%s" % (o["kind"], o["x"], (" " + ("-" if o["p"] is None else str(o["p"]))) if o["kind"] == "bind" else "") for o in ops)))
+        lines.append("prog %d %s" % (t, " ; ".join(op_text(o) for o in ops)))
     evs = [(e[0], canon_event(e)) for e in run["ev"]]
     evs = [(t, c) for (t, c) in evs if c is not None]
     for (t, c) in evs:
@@ -451,6 +886,8 @@ def model_input(sc, run, facts):
         lines.append("ctx %d" % x)
     for t in range(T):
         lines.append("res %d" % t)
+    for t in range(T):
+        lines.append("thr %d" % t)
     lines.append("quiet " + " ".join(map(str, range(T))))
     return lines, evs, ctxs
 
@@ -480,6 +917,12 @@ def judge(sc, run, out, evs, ctxs):
         impl = [str(r) for (tt, tag, oid, r) in run["notes"] if tt == t and tag == "ope" and r >= 0]
         if impl != out[k + t].split():
             return "thread %d cancel results: implementation %s, model %s" % (t, impl, out[k + t].split())
+    k += T
+    for t in range(T):
+        registered, exited = run.get("thr", {}).get(t, (1, 0))
+        impl = "%d %d" % (1 if registered and not exited else 0, 1 if exited else 0)
+        if out[k + t] != impl:
+            return "thread %d registry membership at the end (in my_threads_list, list orphaned): implementation %s, model %s" % (t, impl, out[k + t])
     if out[k + T] != "1":
         return "the model still has operations in flight at the end of the trace"
     return None
@@ -516,11 +959,19 @@ def run_scenario(exe, sc, mode_args, timeout=600):
 # classification of a monitor violation by what the trace shows (which window was hit)
 # --------------------------------------------------------------------------------------------------
 
-def classify(run):
+KEY_HINT = "reset-clears-hint-children-missed"
+KEY_ORPHAN = "orphaned-list-not-reached"
+
+
+def classify(run, sc=None):
     """key naming the shape of the failing history"""
     mon = run["mon"]
+    kinds = {o["id"]: o["kind"] for o in sc["ops"]} if sc else {}
+    evop = run.get("evop") or [None] * len(run["ev"])
     m = re.search(r"context (\d+)", mon)
     kind = mon.split(":")[0].replace("VIOLATION ", "") if mon.startswith("VIOLATION") else mon.split(" ")[0]
+    if kind == "reach-orphan":
+        return KEY_ORPHAN
     if not m:
         return kind.lower()
     x = int(m.group(1))
@@ -528,17 +979,31 @@ def classify(run):
     can = "can%d" % x
     # (a) a binder's copy wrote 0 over a 1 in x (or in the context the message is about)
     val = 0
-    for (t, k, var, a, b, ok) in ev:
+    for (t, k, var, a, b, ok), opid in zip(ev, evop):
         if var != can:
             continue
         if k == "xchg":
             val = 1
         elif k == "store":
-            if a == 0 and val == 1 and not any(o for o in []):
-                # who stored 0 ?  a reset is a seq_cst store by an op of kind reset: the harness never mixes reset with the reach monitor
-                return KEY_COPY
+            if a == 0 and val == 1 and kinds.get(opid) != "reset":
+                return KEY_COPY          # somebody other than a reset() call stored 0 over a 1
             val = a
-    if kind == "reach":
+    if kind in ("reach", "spec-reach"):
+        # (a') a reset() cleared the may_have_children hint of an ancestor and a later winning cancel of that ancestor returned
+        #      at the hint test
+        for (t, k, var, a, b, ok), opid in zip(ev, evop):
+            if k == "store" and var.startswith("mhc") and a == 0 and kinds.get(opid) == "reset":
+                anc = var[3:]
+                wins_after = False
+                seen = False
+                for (t2, k2, var2, a2, b2, ok2), op2 in zip(ev, evop):
+                    if (t2, k2, var2, a2) == (t, k, var, a) and op2 == opid:
+                        seen = True
+                    elif seen and k2 == "load" and var2 == "mhc" + anc and a2 == 0 and kinds.get(op2) == "cancel":
+                        wins_after = True
+                if wins_after:
+                    return KEY_HINT
+    if kind in ("reach", "spec-reach"):
         # (b) the binder of x took the fall-back lock while a propagation was between its epoch increment and its end,
         #     and the parent was painted afterwards
         binder = next((t for (t, k, var, a, b, ok) in ev if k == "cas" and var == "st%d" % x and ok), None)
@@ -565,7 +1030,7 @@ class Acc:
     """collects correspondence failures and monitor violations over many runs"""
 
     def __init__(self):
-        self.bad_corr, self.viol, self.runs, self.deadlocks, self.cands = [], {}, 0, [], {}
+        self.bad_corr, self.viol, self.runs, self.deadlocks, self.cands, self.sampled = [], {}, 0, [], {}, set()
 
     def confirm(self, exe):
         """A run is reproducible from its schedule only when it was the first run of its harness process (later runs of
@@ -579,7 +1044,9 @@ class Acc:
             for (sc, r) in cl[:8]:
                 open(f, "w").write(" ".join(map(str, r["sched"])))
                 rc, runs, tail = run_scenario(exe, sc, ["replay", f])
-                if runs and runs[0]["mon"] != "ok" and classify(runs[0]) == key:
+                if runs:
+                    apply_spec(sc, runs[0])
+                if runs and runs[0]["mon"] != "ok" and classify(runs[0], sc) == key:
                     chosen = (sc, runs[0])
                     break
             if chosen is None:
@@ -591,7 +1058,9 @@ class Acc:
                 for k in range(300):
                     sc = scs[k % len(scs)]
                     rc, runs, tail = run_scenario(exe, sc, ["rand", 900001 + 13 * k, 1])
-                    if runs and runs[0]["mon"] != "ok" and classify(runs[0]) == key:
+                    if runs:
+                        apply_spec(sc, runs[0])
+                    if runs and runs[0]["mon"] != "ok" and classify(runs[0], sc) == key:
                         chosen = (sc, runs[0])
                         break
             if chosen is None:
@@ -607,6 +1076,8 @@ class Acc:
             return
         live = [r for r in runs if not r["mon"].startswith("DEADLOCK")]
         verdicts = dict(zip(map(id, live), replay_many(sc, live, facts)))
+        for r in live:
+            apply_spec(sc, r)
         for r in runs:
             self.runs += 1
             kinds = tuple(sorted(set(e[1] + ":" + re.sub(r"\d+", "", e[2]) for e in r["ev"])))
@@ -619,10 +1090,11 @@ class Acc:
             if d:
                 self.bad_corr.append((sc, r, d))
             if r["mon"] != "ok":
-                self.cands.setdefault(classify(r), []).append((sc, r))
-        if self.runs <= 40 and runs:
+                self.cands.setdefault(classify(r, sc), []).append((sc, r))
+        if runs and family not in self.sampled and len(self.sampled) < 8:
+            self.sampled.add(family)
             ck.sample({"family": family, "scenario": scenario_text(sc).split("\n")[:-2], "registry": runs[0]["reg"],
-                       "trace_head": [" ".join(map(str, e)) for e in runs[0]["ev"][:14]], "monitor": runs[0]["mon"]}, cap=5)
+                       "trace_head": [" ".join(map(str, e)) for e in runs[0]["ev"][:14]], "monitor": runs[0]["mon"]}, cap=8)
 
 
 def cex_obj(sc, r, key):
@@ -635,19 +1107,34 @@ def run(ck):
     quick = ck.tier == "quick"
     ck.rule = ("E-SHIM on the whole instrumented runtime: hand-written contention scenarios + seeded random op programs (context forests of depth <= 4, "
                "2-4 threads with their own context lists, cancels at several levels incl. before/while the context is first bound, racing binds of "
-               "one context, destroy of leaves, random registry orders), each under seeded random schedules; state-guided schedules for the two "
-               "binding windows; every trace is replayed access by access on CtxTree; distinct = (family, #threads, #ops, access kinds, final table)")
+               "one context, destroy of leaves, random registry orders), reset families (contexts with bound children of depth 1-3 reset between rounds "
+               "of cancellation and cancelled again: leaf-first, root only, an intermediate only, random subsets, resets racing a cancel of a proper "
+               "ancestor; the spelled-out reuse shapes), registry families (threads that create their thread_data during the run and threads that exit "
+               "while cancels/binds are in flight), each under seeded random schedules; state-guided schedules for the two binding windows; natural "
+               "programs (nested parallel_for, persistent task_groups reused across rounds, contexts bound by a thread that exits); every white-box "
+               "trace is replayed access by access on CtxTree; distinct = (family, #threads, #ops, access kinds, final table)")
     ck.assumptions += [
-        "proved on the model CtxTree (any number of threads/contexts, any programs, all schedules, sequentially consistent interleavings): "
-        "single winner, no overreach, stickiness, and cancel_reaches_all_bound for the protocol in which the propagator holds the binder's "
-        "fall-back mutex and the binder's copies cannot clear the flag (both facts regenerated from the source)",
+        "proved on the model CtxTree (any number of threads/contexts, any programs of cancel/bind/destroy/reset/register/exit, all schedules, "
+        "sequentially consistent interleavings): single winner, no overreach, stickiness (also across resets of other contexts), reset touches only "
+        "its own context, the may_have_children hint is never cleared while a context has registered children, and "
+        "cancel_reaches_all_bound_with_reset — at quiescence everything bound beneath a context whose winning cancel is current is cancelled unless it "
+        "(or a context on the path) was reset after that cancel won or sits in the orphaned list of an exited thread — for the protocol in which the "
+        "propagator holds the binder's fall-back mutex, the binder's copies cannot clear the flag and reset does not store to my_may_have_children "
+        "(all three facts regenerated from the source); no sequencing discipline on reset is needed for the reach theorem",
+        "dynamic registry as coded: thread_data construction (fresh context list, epoch 0) + register_thread, unregister_thread + "
+        "context_list::orphan; the walk order of the registry is a parameter of the model (every order is covered), given by the harness from the "
+        "observed registration order; contexts in the orphaned list of an exited thread are NOT reached by the code (Props.reach_fails_for_orphaned_list, "
+        "known finding orphaned-list-not-reached), the theorem excludes them",
+        "the implementation-side monitors with resets are sound for programs that respect the documented precondition of reset (no other operation "
+        "on the context or its bound descendants in flight); the generators only produce such programs and the model's misuse flag re-checks it "
+        "on every replayed run; the sequential-specification monitor applies to fully sequenced programs only",
         "store-buffer (TSO) reordering of the relaxed accesses is NOT modelled: the shim serialises accesses; memory orders are not compared",
-        "the registry of threads is fixed during a run: registration / exit of threads (context-list orphaning) while cancels are in flight is not "
-        "modelled; all context lists start with epoch = global epoch",
-        "reset is modelled but excluded from the reach theorem and reach monitor (the API forbids concurrent use); FPU settings, ITT, exceptions not modelled",
+        "a thread registers at most once (a re-registering OS thread is a new model thread); worker threads of the RML are ordinary registry members; "
+        "FPU settings, ITT, exceptions (my_exception is reset's other store) not modelled",
         "agreement of model and implementation is sampled (the traces explored), not proved"]
     ck.trusted += ["checks/c04.py source extractor (E-GEN; cross-checked by the trace replay: a wrong fact makes the model diverge from the trace)",
-                   "harness/shim (atomic shim + baton scheduler)", "harness/c04/wb.cpp (white-box op driver, monitors)", "trace canonicalisation in checks/c04.py"]
+                   "harness/shim (atomic shim + baton scheduler)", "harness/c04/wb.cpp (white-box op driver, op-stamp monitors)", "harness/c04/nat.cpp (natural programs)",
+                   "trace canonicalisation and sequential-specification oracle in checks/c04.py"]
     facts = gen(ck)
     ck.lean_stage()
     exe = build()
@@ -660,6 +1147,28 @@ def run(ck):
     for i in range(nsc):
         sc = random_scenario(ck.rng, allow_reset=(i % 8 == 7))
         acc.add(ck, exe, sc, ["rand", seed * 1009 + i, nsched], facts, "random")
+    # A'. resets of contexts that have bound children, between rounds of cancellation (sequenced resets: leaf-first, root only, an
+    #     intermediate context only, random subsets; resets racing a cancel of a proper ancestor), and the spelled-out reuse shapes
+    for i, sc in enumerate(reuse_scenarios()):
+        acc.add(ck, exe, sc, ["rand", seed * 257 + i, 30 if quick else 300], facts, "reuse")
+    nrs, nrsched = (60, 12) if quick else (400, 40)
+    undisciplined = []
+    for i in range(nrs):
+        sc = reset_rounds_scenario(ck.rng)
+        d, f = reset_sequencing(sc)
+        if not d:
+            undisciplined.append(scenario_text(sc))
+            continue
+        acc.add(ck, exe, sc, ["rand", seed * 4099 + i, nrsched], facts, sc["family"])
+        ck.count(0, ("reset-family", sc["family"], f))
+    # A''. dynamic registry: threads that register during the run and threads that exit while cancels / binds are in flight
+    for i, sc in enumerate(registry_corpus()):
+        acc.add(ck, exe, sc, ["rand", seed * 523 + i, 30 if quick else 300], facts, "registry-corpus")
+    for i in range(40 if quick else 300):
+        sc = registry_scenario(ck.rng)
+        acc.add(ck, exe, sc, ["rand", seed * 6151 + i, 10 if quick else 40], facts, sc["family"])
+    ck.oblige("gen:scenario generator — every generated reset is sequenced with respect to the operations on its subtree", "correspondence",
+              not undisciplined, "" if not undisciplined else undisciplined[0].replace("\n", " / "))
     # B. the two binding windows: state-guided schedule + seeded random schedules on padded variants
     acc.add(ck, exe, f2_scenario(), ["guide", "x"], facts, "f2-guided")
     for (ec, pad) in [(1, 0), (2, 4), (3, 8)]:
@@ -674,10 +1183,15 @@ def run(ck):
               "" if not acc.bad_corr else "%s | scenario: %s | registry %s" % (acc.bad_corr[0][2], scenario_text(acc.bad_corr[0][0]).replace("\n", " / "), acc.bad_corr[0][1]["reg"]))
     o_dead = ck.oblige("monitor:no deadlock (lock order registry -> propagation -> list; binder list, then propagation)", "correspondence", not acc.deadlocks,
                        "" if not acc.deadlocks else acc.deadlocks[0][1]["mon"])
-    reach = {k: v for k, v in acc.viol.items() if v[1]["mon"].startswith("VIOLATION reach")}
-    other = {k: v for k, v in acc.viol.items() if k not in reach}
-    ck.oblige("monitor:bound beneath cancelled => cancelled at quiescence", "correspondence", not reach,
+    orphan = {k: v for k, v in acc.viol.items() if k == KEY_ORPHAN}
+    reach = {k: v for k, v in acc.viol.items() if k not in orphan and (v[1]["mon"].startswith("VIOLATION reach") or v[1]["mon"].startswith("VIOLATION spec-reach"))}
+    other = {k: v for k, v in acc.viol.items() if k not in reach and k not in orphan}
+    ck.oblige("monitor:bound beneath cancelled => cancelled at quiescence (contexts in the lists of registered threads; resets by op stamps; "
+              "sequential specification for fully sequenced programs)", "correspondence", not reach,
               "; ".join("%s: %s" % (k, v[1]["mon"]) for k, v in reach.items()))
+    ck.oblige("monitor:bound beneath cancelled => cancelled at quiescence, for contexts registered in the list of a thread that has exited "
+              "(Props.reach_fails_for_orphaned_list: the code as it is does not reach them)", "correspondence", not orphan,
+              "; ".join("%s: %s" % (k, v[1]["mon"]) for k, v in orphan.items()), cex_keys=[KEY_ORPHAN])
     ck.oblige("monitor:exactly one true per cancellation, sticky until reset, nothing outside the subtree marked", "correspondence", not other,
               "; ".join("%s: %s" % (k, v[1]["mon"]) for k, v in other.items()))
     for key, (sc, r) in sorted(acc.viol.items()):
@@ -719,6 +1233,7 @@ def replay(ck, obj):
     open(f, "w").write(" ".join(map(str, r["schedule"])))
     rc, runs, tail = run_scenario(exe, r["scenario"], ["replay", f])
     for x in runs:
+        apply_spec(r["scenario"], x)
         print("registry walk order:", x["reg"])
         for e in x["ev"]:
             print("  ", *e)
